@@ -87,6 +87,16 @@ func c20List(tier string) []c20Combo {
 			}
 		}
 	}
+	// long lists (a bounded worker pool, striding or chunking would only show beyond its width)
+	bigNs := []int{33, 64, 65, 100}
+	if tier == "thorough" {
+		bigNs = []int{33, 47, 64, 65, 100, 128, 129, 300, 1000}
+	}
+	for _, n := range bigNs {
+		for s := 0; s < 3; s++ {
+			out = append(out, c20Combo{n: n, pat: -1, mode: "jitter", variant: s})
+		}
+	}
 	// directed pairs
 	pairs := [][2]string{}
 	for _, w := range amrWorker {
